@@ -591,12 +591,15 @@ def run(case):
         dsl.append(fedjax.ClientDataset({'x': np.arange(base + 1, base + sz + 1, dtype=np.int32)}))
         base += sz
       k, last, real = 0, 0, 0
-      for b in fedjax.padded_batch_client_datasets(dsl, batch_size=case['bs'], num_batch_size_buckets=case['nb']):
-        k += 1
-        last = len(b['x'])
-        real += int(np.sum(b[M]))
+      try:
+        for b in fedjax.padded_batch_client_datasets(dsl, batch_size=case['bs'], num_batch_size_buckets=case['nb']):
+          k += 1
+          last = len(b['x'])
+          real += int(np.sum(b[M]))
+      except Exception as ex:  # pylint: disable=broad-except
+        return {'counts': counts, 'error': [n, type(ex).__name__]}
       counts.append([k, last, real])
-    return {'counts': counts}
+    return {'counts': counts, 'error': None}
   if kind == 'padded':
     return _run_padded(case, _datasets(case))
   if kind == 'pbfd':
@@ -903,6 +906,8 @@ def oracle(case, obs):
     return out
   if kind == 'padgrid':
     bs, nb = case['bs'], case['nb']
+    if obs.get('error'):
+      return [('padded-grid-error', f'N={obs["error"][0]} bs={bs} buckets={nb} sizes={_grid_sizes(case["split"], obs["error"][0])}: raised {obs["error"][1]}')]
     for n, (k, last, real) in enumerate(obs['counts']):
       sizes = _grid_sizes(case['split'], n)
       rem = n % bs
